@@ -29,7 +29,7 @@ canon = A.canon_rdr
 
 
 def budget(tier):
-    return 40 if tier == "quick" else 600
+    return 40 if tier == "quick" else 3000
 
 
 def stored_member(data, name=b"f.bin", level=1, length=None, crc=None, method=b"-lh0-"):
